@@ -294,7 +294,7 @@ impl Observer for CtlObserver {
 
 fn gen_wellformed(rng: &mut Rng, seq: &mut u8) -> String {
     match rng.below(10) {
-        0..=3 => {
+        0..=3 if *seq < 250 => {
             *seq = seq.wrapping_add(1);
             let a = match rng.below(4) {
                 0 => format!("{:x}", SEQ_CELL),
@@ -341,7 +341,8 @@ impl Property for C18 {
     const ID: &'static str = "C18";
 
     fn generate(rng: &mut Rng, tier: Tier, _i: u64) -> Scn {
-        let n = rng.range(1, if tier == Tier::Quick { 30 } else { 60 }) as usize;
+        // mostly short scripts; 1 in 40 is a burst of hundreds of lines (a controller that writes faster than the loop polls)
+        let n = if rng.chance(1, 40) { rng.range(200, 700) } else { rng.range(1, if tier == Tier::Quick { 30 } else { 60 }) } as usize;
         let malformed_pct = *rng.pick(&[0u64, 10, 30, 60]);
         let mut script = Vec::new();
         let mut seq = 0u8;
@@ -385,7 +386,7 @@ impl Property for C18 {
         let mut blocks = vec![];
         let mut iters = 0u64;
         while iters < span {
-            let d = rng.range(1, 60) as u16;
+            let d = if span - iters > 5000 { rng.range(1000, 60_000) } else { rng.range(1, 60) } as u16;
             blocks.push(Block::Delay(d));
             iters += 1 + 2 * d as u64;
             if rng.chance(1, 3) {
@@ -394,7 +395,7 @@ impl Property for C18 {
             }
         }
         let guest = GuestSpec { blocks, handlers: vec![], code_dram: rng.chance(1, 4), stack_dram: false, data_dram: false, vec_top: 0, sub_delay: 1, init_ccr: None, stack_off: 0 };
-        let cfg = SysCfg { wait_start, clock: gen_clock_model(rng), clock_seed: rng.next_u64(), step_cap: span * 3 + iters + 500 };
+        let cfg = SysCfg { wait_start, clock: gen_clock_model(rng), clock_seed: rng.next_u64(), step_cap: span * 3 + iters + 500, print_msgs: rng.chance(1, 8) };
         Scn { guest, script, batches, cfg }
     }
 
